@@ -103,8 +103,58 @@ def one(case, idx):
     return dict(lookups=lookups, failures=failures[:10])
 
 
+SPECIAL = ["__all__", "__dict__", "__class__", "__name__", "__loader__", "__spec__", "__doc__", "__file__",
+           "__name", "__name___", "__all___x", "__version__", "_", "__", "___", "__cffi_backend_extern_py",
+           "__init__", "__getattr__", "__dir__", "__path__", "__package__", "__cached__", "__builtins__"]
+
+
+def dunder(case, idx):
+    """Global names that collide with module-like attributes of the lib object: every declared name must
+    resolve to ITS OWN entry through lib.<name> as well (the lookup must consult the table first)."""
+    names = case["names"]
+    failures, lookups = [], 0
+    ffi = cffi.FFI()
+    ffi.cdef("\n".join("#define %s %d" % (n, 7000 + i) for i, n in enumerate(names)))
+    modname = "_c25_dunder_%d" % idx
+    work = os.environ["VERIF_WORK"]
+    ffi.set_source(modname, None)
+    path = os.path.join(work, modname + ".py")
+    ffi.emit_python_code(path)
+    spec = importlib.util.spec_from_file_location(modname, path)
+    mod = importlib.util.module_from_spec(spec)
+    spec.loader.exec_module(mod)
+    lib = mod.ffi.dlopen(None)
+    for i, n in enumerate(names):
+        lookups += 2
+        try:
+            v = mod.ffi.integer_const(n)
+            if v != 7000 + i:
+                failures.append("integer_const(%r) = %r, declared %d" % (n, v, 7000 + i))
+        except Exception as e:
+            failures.append("integer_const(%r): %s: %s" % (n, type(e).__name__, e))
+        try:
+            v = getattr(lib, n)
+            if v != 7000 + i:
+                failures.append("lib.%s resolves to %r instead of its own entry %d" % (n, v, 7000 + i))
+        except Exception as e:
+            failures.append("lib.%s not found: %s: %s" % (n, type(e).__name__, e))
+    for n in SPECIAL:
+        if n not in names and n not in ("__dict__", "__class__", "__all__", "__name__", "__loader__", "__spec__",
+                                        "__doc__", "__dir__", "__init__", "__getattr__"):
+            lookups += 1
+            try:
+                getattr(lib, n)
+                failures.append("undeclared lib.%s was found" % n)
+            except AttributeError:
+                pass
+            except Exception as e:
+                failures.append("undeclared lib.%s: unexpected %s" % (n, type(e).__name__))
+    return dict(lookups=lookups, failures=failures[:10])
+
+
 def main(payload):
-    return dict(results=[one(c, i) for i, c in enumerate(payload["cases"])])
+    return dict(results=[(dunder(c, i) if c["mode"] == "dunder" else one(c, i))
+                         for i, c in enumerate(payload["cases"])])
 
 
 worker_main(main)
